@@ -84,3 +84,22 @@ def der(r, s):
     rb, sb = der_int(r), der_int(s)
     body = b"\x02" + bytes([len(rb)]) + rb + b"\x02" + bytes([len(sb)]) + sb
     return b"\x30" + bytes([len(body)]) + body
+
+
+def der_int_of_bytes(b):
+    """DER INTEGER content octets of the non-negative integer whose big-endian bytes are b (leading zero bytes
+    allowed): the shortest byte string with the same value whose first bit is clear"""
+    i = 0
+    while i < len(b) and b[i] == 0:
+        i += 1
+    b = b[i:]
+    if len(b) == 0 or b[0] >= 0x80:
+        b = b"\x00" + b
+    return b
+
+
+def der_of_bytes(rb, sb):
+    """DER SEQUENCE { INTEGER r, INTEGER s } with r, s given by big-endian bytes"""
+    r, s = der_int_of_bytes(rb), der_int_of_bytes(sb)
+    body = b"\x02" + bytes([len(r)]) + r + b"\x02" + bytes([len(s)]) + s
+    return b"\x30" + bytes([len(body)]) + body
